@@ -194,7 +194,7 @@ static void nv_steps_sort(struct nv_steps* s, int64_t first, int64_t last)
  *   steps is well-formed: no grid point evaluated twice so far, every stored value finite, sorted by value. */
 #define NV_CONTRACT_tuner_evaluate \
 __CPROVER_requires(__CPROVER_is_fresh(spaces, sizeof(*spaces)) && __CPROVER_is_fresh(callback, sizeof(*callback)) \
-  && __CPROVER_is_fresh(nv_unnamed, sizeof(*nv_unnamed)) && __CPROVER_is_fresh(steps, sizeof(*steps))) \
+  && __CPROVER_is_fresh(nv_unnamed3, sizeof(*nv_unnamed3)) && __CPROVER_is_fresh(steps, sizeof(*steps))) \
 __CPROVER_requires(0 <= igrids.n && igrids.n <= NV_MAXN && -1 <= igrids.posG && igrids.posG < igrids.n && igrids.spec == igrids.n && NV_STEPS_WF(steps)) \
 /* consistency of the ghost annotations with G */ \
 __CPROVER_requires((!igrids.all_src || igrids.n == 0 || (igrids.src_id == nv_G) == (igrids.posG >= 0)) \
